@@ -360,7 +360,9 @@ where
         for _ in 0..len {
             rad.push(6);
         }
-        let nk = if len == 1 { ks.len() } else { ctx.tier.pick(6, ks.len()) };
+        let nk = if len == 1 { ks.len() } else if len == 2 { ctx.tier.pick(6, ks.len()) } else { 6 };
+        // cost of one bucket reduction on the real curves is 2^w projective additions: shorter window lists for longer lists
+        let wins: Vec<usize> = wins.iter().cloned().filter(|w| *w <= if len == 1 { 12 } else if len == 2 { 10 } else { 8 }).collect();
         for _ in 0..len {
             rad.push(nk as u64);
         }
@@ -424,14 +426,24 @@ where
 }
 
 pub fn run(ctx: &Ctx) -> (&'static str, &'static str) {
-    toy_msm::<T19_4>(ctx, ctx.tier.pick(2, 3), ctx.tier.pick(3465, 543652));
-    toy_msm::<T7_2>(ctx, 3, ctx.tier.pick(240, 6493));
-    if !ctx.quick() {
-        toy_msm::<T19X2>(ctx, 1, 1259);
+    #[cfg(feature = "toy")]
+    {
+        toy_msm::<T19_4>(ctx, ctx.tier.pick(2, 3), ctx.tier.pick(3465, 543652));
+        toy_msm::<T7_2>(ctx, 3, ctx.tier.pick(240, 6493));
+        if !ctx.quick() {
+            toy_msm::<T19X2>(ctx, 1, 1259);
+        }
     }
+    #[cfg(not(feature = "toy"))]
+    ctx.degraded("toy-curve multi-scalar multiplication");
     window_range::<G1Affine>(ctx, "G1");
     window_range::<G2Affine>(ctx, "G2");
-    window_range::<crate::toy::t19_4::Aff>(ctx, "toy(19,4)");
+    #[cfg(feature = "toy")]
+    {
+        window_range::<crate::toy::t19_4::Aff>(ctx, "toy(19,4)");
+    }
+    #[cfg(not(feature = "toy"))]
+    ctx.degraded("toy window range");
     real_msm::<RG1>(ctx);
     real_msm::<RG2>(ctx);
     ctx.assume("scalars are below 2^255 (the bucket method asserts it); table-driven variant gets tables built by the library's precomp_256");
